@@ -40,6 +40,7 @@ impl Prop for C13 {
     }
     fn check(c: &BFCase, ctx: &mut Ctx) -> CheckResult {
         let inp = inputs(&c.b, &c.f)?;
+        crate::common::label_long(ctx, &c.b);
         let sc = inp.scales(c.area);
         let ep = eval_sound(&inp.comps, &inp.factors, 0.0, c.area, c.lm)?;
         let (ren, nren) = (ep.balance.we.b.ren as f64, ep.balance.we.b.nren as f64);
